@@ -46,7 +46,7 @@ def concurrent_map_misuse(log):
         return m.group(0)
     for rep in re.findall(r"WARNING: DATA RACE.*?(?:\n==================|\Z)", log, re.S):
         if re.search(r"runtime\.(mapassign|mapaccess|mapdelete|mapiter|mapclear)", rep):
-            return "concurrent map access (race detector): " + " / ".join(re.findall(r"^  ((?:runtime\.map|github)[^\n(]*)", rep, re.M)[:4])
+            return "concurrent map access (race detector): " + " / ".join([x.rstrip("()") for x in re.findall(r"^  ((?:runtime\.map|github)\S*)", rep, re.M)][:4])
     return None
 
 
